@@ -501,6 +501,47 @@ def coverage_spec():
     return {"package": pkg, "files": [{"name": "alpha", "enums": [k], "messages": [m]}]}
 
 
+def layout_spec():
+    """deterministic companion of coverage_spec: the shapes the seeded rounds went for — single-member real oneofs
+    (scalar / enum / message member), proto3-optional enum and message fields, names differing only by case or by a
+    trailing underscore, three-deep nesting with a nested name shadowing a top-level one, a proto-plus dependency
+    package whose module has the SAME name as a module of the target package, map values from that package"""
+    P, D = "acme.lib.v1", DEP_PACKAGE
+
+    def msg(name, fields=(), messages=(), enums=(), oneofs=()):
+        return {"name": name, "oneofs": list(oneofs), "fields": list(fields), "messages": list(messages), "enums": list(enums)}
+
+    def fld(name, number, type, card="single", ref=None, key=None):
+        d = {"name": name, "number": number, "card": card, "type": type}
+        if ref:
+            d["ref"] = ref
+        if key:
+            d["key"] = key
+        return d
+    dep = {"package": D, "files": [{"name": "shared", "enums": [{"name": "Color", "values": [["COLOR_UNSPECIFIED", 0], ["COLOR_RED", 1]]}],
+           "messages": [msg("Item", [fld("type", 1, "string"), fld("color", 2, "enum", ref=f"{D}.Color")],
+                            [msg("Detail", [fld("label", 1, "string")])])]}]}
+    kind = {"name": "Kind", "values": [["KIND_UNSPECIFIED", 0], ["KIND_A", 2], ["KIND_B", 1], ["KIND_B2", 1]], "alias": True}
+    item = msg("Item", [fld("id", 1, "string")], [msg("Detail", [fld("qty", 1, "int64")])])
+    order = msg("Order", [
+        fld("code", 1, "int32", "oneof:source"),                                   # single-member oneofs
+        fld("kind", 2, "enum", "oneof:by_kind", ref=f"{P}.Kind"),
+        fld("item", 3, "message", "oneof:by_item", ref=f"{P}.Item"),
+        fld("opt_kind", 4, "enum", "optional", ref=f"{P}.Kind"),                   # presence on enum / message fields
+        fld("opt_item", 5, "message", "optional", ref=f"{P}.Item"),
+        fld("Name", 6, "string"), fld("name", 7, "string"), fld("type_", 8, "string"), fld("ID", 9, "int64"), fld("id", 10, "int64"),
+        fld("dep_item", 11, "message", ref=f"{D}.Item"), fld("dep_detail", 12, "message", "repeated", ref=f"{D}.Item.Detail"),
+        fld("colors", 13, "enum", "map", ref=f"{D}.Color", key="string"),
+        fld("shared", 14, "message", ref=f"{P}.Shared"),
+    ], [msg("Item", [fld("full", 1, "message", ref=f"{P}.Item.Detail"), fld("own", 2, "message", ref=f"{P}.Order.Item.Detail"),
+                     fld("deep", 3, "message", ref=f"{P}.Order.Item.Detail.Item")],
+            [msg("Detail", [fld("qty", 1, "sint32", "optional")], [msg("Item", [fld("up", 1, "message", ref=f"{P}.Order.Item")])])])],
+        oneofs=["source", "by_kind", "by_item"])
+    shared = msg("Shared", [fld("from", 1, "message", ref=f"{D}.Item"), fld("value", 2, "bytes", "optional")])
+    return {"package": P, "dep": dep, "files": [{"name": "shared", "enums": [kind], "messages": [item, shared]},
+                                                {"name": "alpha", "enums": [], "messages": [order]}]}
+
+
 # --------------------------------------------------------------------------------------------- the §9-F9 shape
 # (repaired in /repo by 92701a6: such references are now printed as quoted full paths; the corpus entries under
 #  corpus/C02/nested_ref_*.json are regression inputs that must pass; the shape is only counted in the evidence)
@@ -936,6 +977,13 @@ def compare(ctx, spec, syms, files, out, model, trips, codec, shadows, payload):
     for k in sorted(set(out["enums"]) - want_enums):
         ctx.fail("descriptor:extra-class", f"emitted enum {k} has no input enum", payload)
     pypkg = out["modules"][0].rsplit(".types.", 1)[0] if out["modules"] else ""
+    # every top-level class is reachable as <package>.types.<Name>
+    ta = (out.get("types_all") or {}).get(f"{pypkg}.types")
+    if ta is not None:
+        tops = sorted(n for f in spec["files"] for n in [e["name"] for e in f["enums"]] + [m["name"] for m in f["messages"]])
+        lost = [n for n in tops if n not in ta["all"]] + list(ta["missing"])
+        if lost:
+            ctx.fail("types-init:not-exported", f"{pypkg}.types does not export {lost}", payload)
     # manifests (T3 correspondence: the model's manifest vs the module's __protobuf__.manifest)
     for f, mo in zip(spec["files"], model):
         got = out["manifests"].get(f"{pypkg}.types.{f['name']}")
@@ -980,6 +1028,8 @@ def compare(ctx, spec, syms, files, out, model, trips, codec, shadows, payload):
             ctx.fail("descriptor:nesting", f"enum {full} is emitted as {rec['qualname']}", payload)
         if sorted(rec["members"]) != want:
             ctx.fail("descriptor:enum-values", f"{full}: python members {sorted(rec['members'])} != input {want}", payload)
+        if bool(e.options.allow_alias) != bool(s["spec"].get("alias")):
+            ctx.fail("descriptor:enum-options", f"{full}: allow_alias is {e.options.allow_alias} at run time, {bool(s['spec'].get('alias'))} in the input", payload)
         ctx.traces += 1
         if emo.get("values") != [[v.name, v.number] for v in e.value]:
             ctx.disagree("T3:c02.enum", f"{full}: model {emo} vs run-time value order {[[v.name, v.number] for v in e.value]}", payload)
@@ -1296,7 +1346,11 @@ def t2_tables(ctx):
         if real != want:
             ctx.disagree("T2:c02.proto_type", f"Field.proto_type for {n} = {real}, model {want}", {})
     # ToJsonName: protobuf's own computation through a pool, on every reserved word, with and without the suffix
-    names = sorted(set(RESERVED_NAMES)) + PLAIN_FIELDS
+    names, seen_json = [], set()
+    for n in sorted(set(RESERVED_NAMES)) + PLAIN_FIELDS:       # one probe field per JSON name (protobuf rejects duplicates)
+        if apigen.json_name(n) not in seen_json and not n.endswith("_"):
+            seen_json.add(apigen.json_name(n))
+            names.append(n)
     fd = dp.FileDescriptorProto(name="c02_json_probe.proto", package="c02probe", syntax="proto3")
     m = fd.message_type.add(name="P")
     for i, n in enumerate(names):
@@ -1357,6 +1411,13 @@ def excluded_points():
          {"package": P, "files": [{"name": "alpha", "enums": [], "messages": [{"name": "A", "oneofs": [], "messages": [], "enums": [], "fields": [
              {"name": "timestamp_pb2", "number": 1, "card": "single", "type": "string"},
              {"name": "at", "number": 2, "card": "single", "type": "message", "ref": "google.protobuf.Timestamp"}]}]}]}),
+        ("dependency-package-with-api-prefix", "a NON-target file whose package merely starts with the target package as a string "
+         "(acme.lib.v1beta vs acme.lib.v1) is generated into the target library (API.build: file_to_generate = "
+         "package.startswith(...); Props.C02.proto_plus_prefix_quirk): the emitted file set is C11's subject",
+         {"package": P, "dep": {"package": "acme.lib.v1beta", "files": [{"name": "dep_types", "enums": [], "messages": [
+             {"name": "Thing", "oneofs": [], "messages": [], "enums": [], "fields": [{"name": "id", "number": 1, "card": "single", "type": "string"}]}]}]},
+          "files": [{"name": "alpha", "enums": [], "messages": [{"name": "A", "oneofs": [], "messages": [], "enums": [], "fields": [
+              {"name": "thing", "number": 1, "card": "single", "type": "message", "ref": "acme.lib.v1beta.Thing"}]}]}]}),
     ]
 
 
@@ -1380,8 +1441,11 @@ def run(ctx):
                 "numbers), repeated / proto3-optional / oneof members / maps over every legal key type, references to self, "
                 "ancestors, descendants, later and earlier types of the file, other files of the package and dependency "
                 "packages (google.protobuf / google.rpc / google.type / google.api / google.longrunning), names from pools of "
-                "12-27 incl. 21 reserved words and the module names; distinct by spec; per message 2-4 random valuations "
-                "(distinct by bytes; non-trivial = non-empty valuation)")
+                "12-35 incl. 21 reserved words, the module names and names differing only by case or a trailing underscore; in ~30% of "
+                "the cases a second package generated as its own proto-plus library and named in proto-plus-deps (same-named "
+                "modules and messages across the two packages); real oneofs of 1..3 members; distinct by spec; per message 2-4 random "
+                "valuations plus one that SETS every explicit-presence scalar to its zero value, each sent as bytes, as JSON text and as "
+                "a literal dict / keyword arguments / attribute assignments (distinct by bytes; non-trivial = non-empty valuation)")
     ctx.assume("enum numbers are non-negative: proto-plus sorts enum values by number and protobuf rejects an open enum "
                "whose first value is not zero, so a negative value makes the module fail to import "
                "(Props.C02.enum_negative_counterexample; run-time library limitation, the generator prints the values faithfully)")
@@ -1390,6 +1454,8 @@ def run(ctx):
                "target-package module names do not end in _pb2 (DESIGN 7.2 forced hypothesis)")
     ctx.assume("no field carries the alias the generator derives for a colliding module (<package initials>_<module>), "
                "the name <module>_pb2 of an imported dependency module, or the name of a Python builtin used as a bare class name")
+    ctx.assume("one proto package per target library (no sub-packages: their `marshal=` branch is reached only by the excluded point "
+               "dependency-package-with-api-prefix); dependency packages outside google.* are proto-plus packages listed in proto-plus-deps")
     ctx.assume("no field is named <reserved word>_ next to a field named <reserved word> (protoc rejects the JSON-name conflict)")
     t2_tables(ctx)
     run_excluded(ctx)
@@ -1397,6 +1463,7 @@ def run(ctx):
     for fn, payload in corpus_specs():
         run_spec(ctx, r, payload["spec"], "corpus:" + fn)
     run_spec(ctx, r, coverage_spec(), "coverage", nvals=ctx.n(3, 8))
+    run_spec(ctx, r, layout_spec(), "layout", nvals=ctx.n(3, 8))
     n = ctx.n(40, 600)
     for i in range(n):
         run_spec(ctx, r, gen_spec(r, big=(i % 5 == 4)), f"gen{i}")
@@ -1431,7 +1498,10 @@ CLAIM = dict(
           "proto_type, Address.rel/__str__/module_alias/python_import, ToJsonName via DescriptorPool; T3 the run-time descriptor of "
           "EVERY emitted class (fresh interpreter) vs the model's predicted FieldDescriptorProtos; model-independent oracle: run-time "
           "descriptor = input descriptor aspect by aspect, two-way binary round trips and to_json/from_json against dynamic messages "
-          "built from the input files."),
+          "built from the input files, each valuation also written as a literal dict / keyword arguments / attribute assignments "
+          "(a wrongly bound type cannot hide in unknown fields) and with explicit-presence scalars set to zero. Also modelled and "
+          "T2-compared: _get_fields' oneof lookup (oneof_membership_preserved, any number of members), the orphan-field pass "
+          "(resolution_order_irrelevant), is_proto_plus_type incl. proto-plus-deps and python_import packages."),
     technique="Lean 4 theorems (declaration round trip, naming algebra over the bridged tables, Python-scoping resolution of Address.rel) + differential T2/T3 on run-time descriptors + round-trip oracle",
     design="7.2",
     note=("proto-plus's reading of proto.Field/MapField, Python name lookup in class bodies and protobuf's ToJsonName are modelled "
